@@ -21,13 +21,7 @@ ISOLATE_SHARDS = True        # every shard runs in a forked child of a pristine 
 RULE = ("every schedule of the harness threads with <= bound preemptions, scheduling points at every library lock operation, "
         "request boundary and source line of the watched request-path functions; non-trivial = distinct complete schedules "
         "(choice sequences) containing >= 1 context switch while both threads were inside a request")
-BOUNDS = {
-    "quick": "object-level seam (Connection_Manager.request): programs W|R, WR|WR, B(w,r)|B(w,r), private elements, 3 threads W|W|R at "
-             "lock granularity; line granularity (G1) with preemption bound 2 for 2 threads, bound 1 for 3 threads; full stack "
-             "(logix.process incl. Register) bound 1",
-    "thorough": "same programs + bundles of 3 and WW|RR; line granularity bound 2 for the single-request programs and bound 1 for the "
-                "others; lock granularity bound 3 (W|R) / 2; full stack (incl. cold start) lock granularity bound 2, line granularity bound 1",
-}
+BOUNDS = {}       # filled below from plan(): the programs, seams, granularities and preemption bounds actually explored per tier
 ASSUMPTIONS = [
     "CPython runs C-level list slice copy / slice assignment from a list atomically (GIL); every Python-level line around them is a "
     "scheduling point",
@@ -569,6 +563,12 @@ def plan(tier):
             ("private", "cm", "G1", 1), ("private", "cm", "G0", 2), ("W|W|R", "cm", "G0", 2), ("W|W|R", "cm", "G1", 1),
             ("W|R", "frame", "G1", 1), ("W|R", "frame", "G0", 2), ("B|B", "frame", "G0", 1), ("WR|WR", "frame", "G0", 1),
             ("cold", "frame", "G1", 1), ("cold", "frame", "G0", 2)]
+
+
+for _tier in ("quick", "thorough"):
+    BOUNDS[_tier] = ("program/seam/granularity/preemption-bound (cm = Connection_Manager.request seam, frame = whole frames through "
+                     "logix.process incl. Register; G0 = lock operations + request boundaries, G1 = G0 + shared-data source lines): "
+                     + "; ".join("%s/%s/%s/%d" % p for p in plan(_tier)))
 
 
 def run(ctx):
